@@ -37,9 +37,9 @@ def assigned_names(stmts):
             if isinstance(n, ast.Call) and isinstance(n.func, ast.Attribute) and n.func.attr in \
                     ("append", "extend", "add", "update", "clear", "pop", "insert", "remove", "setdefault"):
                 b = n.func.value
-                while isinstance(b, (ast.Subscript, ast.Attribute)):
+                while isinstance(b, ast.Subscript):
                     b = b.value
-                if isinstance(b, ast.Name):
+                if isinstance(b, ast.Name):  # a mutator on an attribute chain (self.f.append) changes the heap, not the local
                     names.add(b.id)
             if isinstance(n, (ast.Assign, ast.AugAssign)):
                 tg = n.targets if isinstance(n, ast.Assign) else [n.target]
@@ -127,7 +127,19 @@ class StmtMixin:
         return [(st, ("normal",))]
 
     def ex_Expr(self, s, st, cx):
-        return [(s2, ("normal",)) for s2, _ in self.ev(s.value, st, cx)]
+        opq = getattr(cx.contract, "opaque_locals", None) or []
+        try:
+            return [(s2, ("normal",)) for s2, _ in self.ev(s.value, st, cx)]
+        except Unsupported:
+            # x.method(<unmodelled>) on a local declared opaque: the local becomes an unmodelled value
+            e = s.value
+            if isinstance(e, ast.Call) and isinstance(e.func, ast.Attribute) and isinstance(e.func.value, ast.Name) and e.func.value.id in opq:
+                st = st.copy()
+                if ("__alias__" + e.func.value.id) in st.env:
+                    raise
+                st.env[e.func.value.id] = VOpaque("unmodelled value of " + e.func.value.id)
+                return [(st, ("normal",))]
+            raise
 
     def ex_Return(self, s, st, cx):
         if s.value is None:
@@ -236,13 +248,29 @@ class StmtMixin:
                 and (cx.mod.qn + "." + s.targets[0].id) in self.reg.records:
             return [(st, ("normal",))]  # class-valued module constant (namedtuple): modelled by the declared record
         outs = []
-        for s2, v in self.ev(s.value, st, cx):
+        opq = getattr(cx.contract, "opaque_locals", None) or []
+        tname = s.targets[0].id if len(s.targets) == 1 and isinstance(s.targets[0], ast.Name) else None
+        try:
+            vals = self.ev(s.value, st, cx)
+        except Unsupported:
+            if tname in opq:
+                vals = [(st, VOpaque("unmodelled value of " + tname))]
+            else:
+                raise
+        for s2, v in vals:
             states = [s2]
             for tg in s.targets:
                 nxt = []
                 for cur in states:
                     nxt.extend(self.assign_target(tg, v, cur, cx))
                 states = nxt
+            if tname is not None:
+                for x in states:
+                    x.env.pop("__alias__" + tname, None)
+                    if isinstance(s.value, ast.Attribute) and isinstance(v, (VList, VDict)):
+                        for _, b in self.ev(s.value.value, x.copy(), cx.child(spec=True, acc=[])):
+                            if isinstance(b, VRef) and self.field_sort(s.value.attr, b.cls) is not None:
+                                x.env["__alias__" + tname] = VOpaque((b, s.value.attr))
             outs.extend((x, ("normal",)) for x in states)
         return outs
 
